@@ -344,6 +344,11 @@ def main(tier, replay=None):
                               {"case": by_id[t["id"]], "event": family.clean_json(ev), "verdict": [kind, detail]})
             if l == 1 and len(rep.cov["samples"]) < 3 and ev["op"] in ("cmerge", "cconstruct"):
                 rep.sample({"op": ev["op"], "case": by_id[t["id"]], "verdict": [kind, detail]})
+    if not replay:
+        from vcommon import drift_tier
+
+        # NestedTermList as coded, on interval alternatives: every pair of spec/Nested.tla into the real NestedPolyhedra
+        drift_tier(PROP, "nested-lists", lambda: __import__("nesteddrv").conformance(rep, rd, PROP, tier))
     shutil.rmtree(rd, ignore_errors=True)
     return rep.finish({
         "evaluations": n_ev,
